@@ -154,14 +154,19 @@ def replay(scn):
                     a.values[np.unravel_index(k, a.values.shape)] = _venc(c, dt, zeros)     # (row-major cell k, whatever the memory layout)
         before = A.snapshot(a)
         forms = (0, 1) if i["spec"]["k"] == "tuple" else (0,)
+        if i["spec"]["k"] in ("name", "tuple") and not zeros and all(n in A.DIGIT_NAMES for n in a_abs["dims"]):
+            forms = forms + ("digit",)          # the same call on dimensions named '1', '0', ..: a name is never a position
         for func in FUNCS:
             if func == "ptp" and dt == "b":
                 continue
             expected_vals = [_eval(func, t, dt, zeros) for t in exp["cells"]]
             for form in forms:
-                ax = _axis_arg(i, form)
+                ax = _axis_arg(i, 0 if form == "digit" else form)
                 calls += 1
                 what = None
+                if form == "digit":
+                    A.digit_dims(a)
+                    ax = A.DIGIT_NAMES[ax] if isinstance(ax, str) else tuple(A.DIGIT_NAMES[n] for n in ax)
                 try:
                     kw = dict(skipna=i["skipna"])
                     if i["spec"]["k"] != "none" or form == 1:
@@ -169,12 +174,16 @@ def replay(scn):
                     res = getattr(a, func)(**kw)
                 except Exception as e:  # noqa
                     what = "raised %s: %s" % (type(e).__name__, str(e)[:200])
+                if form == "digit":
+                    A.digit_dims(a, back=True)
+                    if what is None:
+                        A.digit_dims(res, back=True)
                 if what is None and A.snapshot(a) != before:
                     what = "operand modified"
                 if what is None:
                     what = _check_result(res, exp, expected_vals, codec, kinds) or None
                 if what:
-                    viol.append(dict(what=what, sig=signature(scn, func, "form%d%s" % (form, ("/" + ("inf" if zeros == "inf" else "zeros")) if zeros else "")), variant="%s form=%d zeros=%s" % (func, form, zeros)))
+                    viol.append(dict(what=what, sig=signature(scn, func, "form%s%s" % (form, ("/" + ("inf" if zeros == "inf" else "zeros")) if zeros else "")), variant="%s form=%s zeros=%s" % (func, form, zeros)))
         if zeros:
             continue
         # percentile (a library function): single axis, NaN propagates as in NumPy
